@@ -872,8 +872,12 @@ func runBigSetHistory(t *testing.T, run *emit.Run, scripted bool) *bhist {
 			h.opSetStatus(v, []int64{2, 2, 1}[r.Intn(3)])
 		}
 	}
+	late := map[int]bool{}
 	confirmAll := func(n uint64) {
 		for i, v := range r.Perm(nv) {
+			if late[v] {
+				continue
+			}
 			h.confirmAs(v, n, scripted || r.Intn(12) > 0, i%25 == 24 || i == nv-1)
 		}
 	}
@@ -912,7 +916,30 @@ func runBigSetHistory(t *testing.T, run *emit.Run, scripted bool) *bhist {
 	}
 	h.opBuild()
 	n2 := h.nonces[1]
+	// four validators are late; meanwhile four others, spread over the orchestrator address order (first, middle, last
+	// and one beyond the hundredth), confirm and then hand their keys over to the late ones, who try to confirm with them:
+	// a key confirms a batch once, wherever its confirmation sits in the store
+	lateVals := []int{byAddr[2], byAddr[nv/3], byAddr[nv-4], byAddr[nv/2+1]}
+	for _, v := range lateVals {
+		late[v] = true
+	}
 	confirmAll(n2)
+	for i, a := range []int{byAddr[0], byAddr[nv/2], byAddr[nv-1], byAddr[100]} {
+		b := lateVals[i]
+		old := -1
+		for k := range h.keys {
+			if lower(h.keyAddr(k)) == h.regAddr[a] {
+				old = k
+			}
+		}
+		if old < 0 {
+			continue
+		}
+		h.run.Count("op", "key-handover")
+		h.opRegister(a, 5+i)
+		h.opRegister(b, old)
+		h.confirmAs(b, n2, true, true)
+	}
 	h.run.Count("op", "cancel")
 	err := h.in.SkywayKeeper.CancelOutgoingTXBatch(h.ctx, *h.token, n2)
 	if err != nil {
